@@ -1,5 +1,5 @@
 From CV Require Import Layout.Layout.
 From Coq Require Import ExtrOcamlBasic.
 Extraction Language OCaml.
-Extraction "layout_model.ml" spec_get spec_set spec_has spec_which gen_objsize
+Extraction "layout_model.ml" spec_get spec_set spec_has spec_which spec_future gen_objsize
   get_of set_of has_of new_of getbytes_of gen_node Z.add Z.mul Z.div Z.modulo Z.opp Z.ltb.
